@@ -288,7 +288,24 @@ CHECKS.update(
     ),
 )
 
-PENDING = {"C11": "in progress: resource-model harness for image iteration / open-close pairing"}
+CHECKS.update(
+    C11=dict(
+        category="other",
+        text="The real rendering / iteration / construction code of the three styles (ImageIterator incl. _animate, _renderer, _get_image, "
+        "_get_render_data, _display_animated, close, from_file, from_url, __format__, the three _render_image) runs against a resource "
+        "model: Image.open hands out instrumented image doubles; every open / convert / resize / composite / encode step is a fault point "
+        "selected by a z3 integer (the engine forks at every step); requests / mkstemp / os.remove are modelled. Source kind, mode, alpha "
+        "kind, size relation, render method, operation (str/format, draw, partial or full iteration, early close, abandonment) are "
+        "solver-forked selectors. Claims: every image the library opened is closed and none used after closing, a caller's image never "
+        "closed, iterated frames = per-frame formatting, tell() tracking, size setting unchanged, URL temp file lifetime.",
+        note="Resource model instead of real file descriptors / HTTP / PIL file handling (a leak inside PIL itself would not be seen); "
+        "closing must be explicit (not left to garbage collection); images are 1x1 cells, 2-3 frames.",
+        design="3 C11",
+        technique=TECH_S + "; resource model with a solver-owned fault index",
+    ),
+)
+
+PENDING = {}
 
 
 def main():
